@@ -23,13 +23,14 @@ structure BlockSpec where
   /-- the equations of the block hold in the data -/
   Sat : Env → Prop
   /-- the block only writes its outputs -/
-  frame : ∀ e k, k ∉ writes → run e k = e k
+  frame : ∀ e k, k ∉ writes → (run e).val k = e.val k
   /-- after the execution its equations hold -/
   sat_run : ∀ e, Pre e → Sat (run e)
   /-- the equations only look at the external inputs and the outputs -/
-  sat_congr : ∀ e e', (∀ k ∈ ext ++ writes, e k = e' k) → Sat e → Sat e'
+  sat_congr : ∀ e e', (∀ k ∈ ext ++ writes, e.val k = e'.val k) → Sat e → Sat e'
   /-- the equations determine the outputs from the external inputs -/
-  sat_det : ∀ e e', Sat e → Sat e' → (∀ k ∈ ext, e k = e' k) → ∀ k ∈ writes, e k = e' k
+  sat_det : ∀ e e', Sat e → Sat e' → (∀ k ∈ ext, e.val k = e'.val k) →
+    ∀ k ∈ writes, e.val k = e'.val k
 
 /-- A later block does not write anything an earlier block reads or writes. -/
 def NoBackWrite (b c : BlockSpec) : Prop := ∀ k ∈ c.writes, k ∉ b.ext ++ b.writes
@@ -45,7 +46,7 @@ theorem chainEval_append (bs cs : List Block) (e : Env) :
 
 /-- Names written by none of the blocks are left alone. -/
 theorem chainEval_frame (bs : List BlockSpec) (e : Env) (k : String)
-    (hk : ∀ b ∈ bs, k ∉ b.writes) : chainEval (bs.map (·.run)) e k = e k := by
+    (hk : ∀ b ∈ bs, k ∉ b.writes) : (chainEval (bs.map (·.run)) e).val k = e.val k := by
   induction bs generalizing e with
   | nil => rfl
   | cons b bs ih =>
@@ -85,13 +86,13 @@ theorem chain_satisfies_all (bs : List BlockSpec) (e : Env)
 theorem chain_unique (bs : List BlockSpec) (e e' : Env)
     (hsat : ∀ b ∈ bs, b.Sat (chainEval (bs.map (·.run)) e))
     (hsat' : ∀ b ∈ bs, b.Sat e')
-    (hsame : ∀ k, (∀ b ∈ bs, k ∉ b.writes) → e' k = e k)
+    (hsame : ∀ k, (∀ b ∈ bs, k ∉ b.writes) → e'.val k = e.val k)
     (hext : bs.Pairwise (fun b c => ∀ k ∈ b.ext, k ∉ c.writes))
     (hself : ∀ b ∈ bs, ∀ k ∈ b.ext, k ∉ b.writes) :
-    ∀ k, e' k = chainEval (bs.map (·.run)) e k := by
+    ∀ k, e'.val k = (chainEval (bs.map (·.run)) e).val k := by
   -- agreement on everything written by a prefix, by induction on the prefix
   have key : ∀ pre post, bs = pre ++ post →
-      ∀ k, (∀ b ∈ post, k ∉ b.writes) → e' k = chainEval (bs.map (·.run)) e k := by
+      ∀ k, (∀ b ∈ post, k ∉ b.writes) → e'.val k = (chainEval (bs.map (·.run)) e).val k := by
     intro pre
     induction pre using List.reverseRecOn with
     | nil =>
